@@ -1,6 +1,7 @@
 package main
 
 import (
+	"crypto/sha1"
 	"encoding/json"
 	"flag"
 	"fmt"
@@ -8,90 +9,329 @@ import (
 	"os"
 	"sort"
 	"strings"
+	"sync"
 	"time"
 
 	"golang.org/x/tools/go/ssa"
 )
 
+// Spec is one engine invocation: one package load, several jobs (harness function × parameters).
+type Spec struct {
+	Repo      string            `json:"repo"`
+	Pkg       string            `json:"pkg"`
+	Harness   []string          `json:"harness"`
+	Replace   map[string]string `json:"replace"` // source overlays (dst path -> src path), for experiments
+	IntMode   bool              `json:"intmode"`
+	Solver    string            `json:"solver"`
+	TimeoutMs int               `json:"timeout_ms"` // per solver query
+	KnownOpen []string          `json:"known_open"`
+	Workers   int               `json:"workers"`
+	Jobs      []Job             `json:"jobs"`
+}
+
+type Job struct {
+	Name       string           `json:"name"`
+	Func       string           `json:"func"`
+	Params     map[string]int64 `json:"params"`
+	Unwind     int              `json:"unwind"`
+	MaxPaths   int              `json:"maxpaths"`
+	MapOrders  string           `json:"maporders"`
+	TimeoutS   int              `json:"timeout_s"`
+	NoValidate bool             `json:"novalidate"`
+}
+
+type JobResult struct {
+	Job         Job
+	Status      string // ok | error | timeout
+	Error       string `json:",omitempty"`
+	RunS        float64
+	SolverS     float64
+	Queries     int
+	Paths       int
+	Instrs      int
+	Merges      int
+	JoinMerges  int
+	Obligations int
+	Trivial     int
+	Discharged  int
+	OvfChecks   int
+	Failures    []Failure
+	Reached     map[string]bool
+	Witnesses   []Witness
+	Stubs       map[string]int
+	Functions   map[string]int
+	Interned    []string
+	Samples     []string
+	JoinFailWhy map[string]int `json:",omitempty"`
+}
+
+type jobTimeout struct{}
+
+func runJob(l *Loaded, spec *Spec, job Job) (res JobResult) {
+	res.Job = job
+	t1 := time.Now()
+	tmo := spec.TimeoutMs
+	if tmo == 0 {
+		tmo = 20000
+	}
+	solver := spec.Solver
+	if solver == "" {
+		solver = "z3"
+	}
+	s, err := NewSolver(solver, tmo)
+	if err != nil {
+		res.Status, res.Error = "error", "solver: "+err.Error()
+		return
+	}
+	defer s.Close()
+	if lf := os.Getenv("VERIF_SMTLOG"); lf != "" {
+		f, _ := os.Create(lf + "." + job.Name)
+		defer f.Close()
+		s.Log = f
+	}
+	e := NewEngine(l, s)
+	if job.Unwind > 0 {
+		e.Unwind = job.Unwind
+	}
+	if job.MaxPaths > 0 {
+		e.MaxPaths = job.MaxPaths
+	}
+	if job.MapOrders != "" {
+		e.MapOrders = job.MapOrders
+	}
+	e.NoValidate = job.NoValidate
+	e.NoJoinMerge = os.Getenv("VERIF_NOJOIN") != ""
+	for k, v := range job.Params {
+		e.Params[k] = v
+	}
+	for _, k := range spec.KnownOpen {
+		e.KnownOpen[k] = true
+	}
+	if job.TimeoutS > 0 {
+		e.Deadline = time.Now().Add(time.Duration(job.TimeoutS) * time.Second)
+	}
+	fn := l.Main.Func(job.Func)
+	fill := func() {
+		res.RunS = time.Since(t1).Seconds()
+		res.SolverS = s.Time.Seconds()
+		res.Queries = s.Queries
+		res.Paths = e.Paths
+		res.Instrs = e.Instrs
+		res.Merges = e.Merges
+		res.JoinMerges = e.JoinMerges
+		res.Obligations = e.AssertQ
+		res.Trivial = e.Trivial
+		res.Discharged = e.Discharged
+		res.OvfChecks = e.OvfChecks
+		res.Failures = e.Failures
+		res.Reached = e.Reached
+		res.Witnesses = e.Witnesses
+		res.Stubs = e.Stubs
+		res.Functions = e.FnSeen
+		res.Interned = e.internedRev
+		res.Samples = e.Samples
+		if os.Getenv("VERIF_DEBUGJOIN") != "" {
+			res.JoinFailWhy = e.joinFailWhy
+		}
+	}
+	if fn == nil {
+		res.Status, res.Error = "error", "no such harness function "+job.Func
+		return
+	}
+	if os.Getenv("VERIF_DUMP") != "" {
+		fn.WriteTo(os.Stderr)
+	}
+	defer func() {
+		if r := recover(); r != nil {
+			fill()
+			if _, ok := r.(jobTimeout); ok {
+				res.Status, res.Error = "timeout", fmt.Sprintf("job exceeded %d s", job.TimeoutS)
+				return
+			}
+			res.Status, res.Error = "error", fmt.Sprint(r)
+			if os.Getenv("VERIF_TRACE") != "" {
+				panic(r)
+			}
+		}
+	}()
+	e.RunHarness(fn)
+	fill()
+	res.Status = "ok"
+	return
+}
+
 func main() {
+	specFile := flag.String("spec", "", "JSON spec file")
+	outFile := flag.String("out", "", "write JSON result here (default stdout)")
+	// single-job convenience flags
 	repo := flag.String("repo", "/repo", "repository")
 	pkg := flag.String("pkg", "", "package pattern, e.g. ./internal/promapi")
 	harness := flag.String("harness", "", "comma separated harness files")
-	fnName := flag.String("func", "", "harness function")
+	fnName := flag.String("func", "", "harness function(s), comma separated")
 	solver := flag.String("solver", "z3", "solver binary")
 	unwind := flag.Int("unwind", 12, "loop unwinding bound")
-	logf := flag.String("smtlog", "", "write SMT dialogue here")
 	repl := flag.String("replace", "", "dst=src[,dst=src] source overlays (mutation experiments)")
+	params := flag.String("params", "", "k=v,k=v harness parameters")
+	intmode := flag.Bool("int", true, "integer mode (LIA with no-overflow obligations) instead of 64-bit bit-vectors")
+	workers := flag.Int("workers", 1, "parallel jobs")
+	known := flag.String("known", "", "comma separated open known-finding signature names")
+	hashes := flag.Bool("hashes", true, "include source hashes of executed pint functions")
 	flag.Parse()
-	replace := map[string]string{}
-	if *repl != "" {
-		for _, kv := range strings.Split(*repl, ",") {
-			p := strings.SplitN(kv, "=", 2)
-			replace[p[0]] = p[1]
+
+	var spec Spec
+	if *specFile != "" {
+		b, err := os.ReadFile(*specFile)
+		if err != nil {
+			fmt.Fprintln(os.Stderr, "spec:", err)
+			os.Exit(2)
 		}
+		if err := json.Unmarshal(b, &spec); err != nil {
+			fmt.Fprintln(os.Stderr, "spec:", err)
+			os.Exit(2)
+		}
+	} else {
+		spec = Spec{Repo: *repo, Pkg: *pkg, Harness: strings.Split(*harness, ","), IntMode: *intmode, Solver: *solver, Workers: *workers, Replace: map[string]string{}}
+		if *repl != "" {
+			for _, kv := range strings.Split(*repl, ",") {
+				p := strings.SplitN(kv, "=", 2)
+				spec.Replace[p[0]] = p[1]
+			}
+		}
+		if *known != "" {
+			spec.KnownOpen = strings.Split(*known, ",")
+		}
+		pm := map[string]int64{}
+		if *params != "" {
+			for _, kv := range strings.Split(*params, ",") {
+				p := strings.SplitN(kv, "=", 2)
+				var v int64
+				fmt.Sscan(p[1], &v)
+				pm[p[0]] = v
+			}
+		}
+		for _, f := range strings.Split(*fnName, ",") {
+			spec.Jobs = append(spec.Jobs, Job{Name: f, Func: f, Params: pm, Unwind: *unwind})
+		}
+	}
+	if spec.Repo == "" {
+		spec.Repo = "/repo"
+	}
+	IntMode = spec.IntMode
+	if spec.Workers <= 0 {
+		spec.Workers = 1
 	}
 
 	t0 := time.Now()
-	l, err := Load(*repo, *pkg, strings.Split(*harness, ","), replace)
+	l, err := Load(spec.Repo, spec.Pkg, spec.Harness, spec.Replace)
 	if err != nil {
 		fmt.Fprintln(os.Stderr, "load:", err)
 		os.Exit(2)
 	}
 	tLoad := time.Since(t0)
-	s, err := NewSolver(*solver, 20000)
-	if err != nil {
-		fmt.Fprintln(os.Stderr, "solver:", err)
-		os.Exit(2)
+
+	results := make([]JobResult, len(spec.Jobs))
+	var wg sync.WaitGroup
+	ch := make(chan int)
+	for w := 0; w < spec.Workers; w++ {
+		wg.Add(1)
+		go func() {
+			defer wg.Done()
+			for i := range ch {
+				results[i] = runJob(l, &spec, spec.Jobs[i])
+				if os.Getenv("VERIF_PROGRESS") != "" {
+					r := results[i]
+					fmt.Fprintf(os.Stderr, "job %s: %s %.1fs paths=%d obligations=%d failures=%d %s\n", r.Job.Name, r.Status, r.RunS, r.Paths, r.Obligations, len(r.Failures), r.Error)
+				}
+			}
+		}()
 	}
-	if *logf != "" {
-		f, _ := os.Create(*logf)
-		defer f.Close()
-		s.Log = f
+	for i := range spec.Jobs {
+		ch <- i
 	}
-	e := NewEngine(l, s)
-	e.Unwind = *unwind
-	e.NoJoinMerge = os.Getenv("VERIF_NOJOIN") != ""
-	patchTimeType(e)
-	fn := l.Main.Func(*fnName)
-	if fn == nil {
-		fmt.Fprintln(os.Stderr, "no such harness function", *fnName)
-		os.Exit(2)
-	}
-	if os.Getenv("VERIF_DUMP") != "" {
-		fn.WriteTo(os.Stderr)
-	}
-	t1 := time.Now()
-	e.RunHarness(fn)
-	type fnCount struct {
-		Fn string
-		N  int
-	}
-	var fns []fnCount
-	for k, v := range e.FnSeen {
-		fns = append(fns, fnCount{k, v})
-	}
-	sort.Slice(fns, func(i, j int) bool { return fns[i].N > fns[j].N })
-	out := map[string]any{
-		"load_s": tLoad.Seconds(), "run_s": time.Since(t1).Seconds(), "solver_s": s.Time.Seconds(), "queries": s.Queries,
-		"paths": e.Paths, "instrs": e.Instrs, "merges": e.Merges, "join_merges": e.JoinMerges, "join_merge_fails": e.JoinMergeFails, "merge_fails": e.MergeFails, "assert_obligations": e.AssertQ,
-		"failures": e.Failures, "join_fail_why": joinFailWhy, "reached": e.Reached, "stubs": e.Stubs, "functions": fns,
+	close(ch)
+	wg.Wait()
+
+	out := map[string]any{"load_s": tLoad.Seconds(), "wall_s": time.Since(t0).Seconds(), "results": results, "intmode": IntMode}
+	if *hashes {
+		seen := map[string]bool{}
+		for _, r := range results {
+			for f := range r.Functions {
+				seen[f] = true
+			}
+		}
+		out["source_hashes"] = sourceHashes(l, seen)
 	}
 	b, _ := json.MarshalIndent(out, "", " ")
-	fmt.Println(string(b))
-	s.Close()
+	if *outFile != "" {
+		os.WriteFile(*outFile, b, 0o644)
+	} else {
+		fmt.Println(string(b))
+	}
 }
 
-// zeroValue for time.Time must match the intrinsic model (single int64 field).
-var timeTimeNamed *types.Named
+// sourceHashes returns sha1 of the source text of every executed function of pint's own packages.
+func sourceHashes(l *Loaded, names map[string]bool) map[string]string {
+	out := map[string]string{}
+	files := map[string][]byte{}
+	var visit func(fn *ssa.Function)
+	visit = func(fn *ssa.Function) {
+		if fn == nil || !names[fn.String()] || !strings.HasPrefix(fnPkgPath(fn), "github.com/cloudflare/pint") {
+			return
+		}
+		syn := fn.Syntax()
+		if syn == nil {
+			return
+		}
+		p0, p1 := l.Prog.Fset.Position(syn.Pos()), l.Prog.Fset.Position(syn.End())
+		if strings.Contains(p0.Filename, "zz_verif_") {
+			return
+		}
+		src, ok := files[p0.Filename]
+		if !ok {
+			src, _ = os.ReadFile(p0.Filename)
+			files[p0.Filename] = src
+		}
+		if p0.Offset < len(src) && p1.Offset <= len(src) && p0.Offset < p1.Offset {
+			out[fn.String()] = fmt.Sprintf("%x", sha1.Sum(src[p0.Offset:p1.Offset]))[:12]
+		}
+	}
+	for fn := range allFunctions(l.Prog, names) {
+		visit(fn)
+	}
+	return out
+}
 
-func patchTimeType(e *Engine) {
-	for _, p := range e.L.Prog.AllPackages() {
-		if p.Pkg.Path() == "time" {
-			if tn := p.Type("Time"); tn != nil {
-				timeTimeNamed = tn.Type().(*types.Named)
+func allFunctions(prog *ssa.Program, names map[string]bool) map[*ssa.Function]bool {
+	out := map[*ssa.Function]bool{}
+	for _, pkg := range prog.AllPackages() {
+		if !strings.HasPrefix(pkg.Pkg.Path(), "github.com/cloudflare/pint") {
+			continue
+		}
+		for _, m := range pkg.Members {
+			switch x := m.(type) {
+			case *ssa.Function:
+				out[x] = true
+				for _, a := range x.AnonFuncs {
+					out[a] = true
+				}
+			case *ssa.Type:
+				for _, t := range []types.Type{x.Type(), types.NewPointer(x.Type())} {
+					ms := prog.MethodSets.MethodSet(t)
+					for i := 0; i < ms.Len(); i++ {
+						if f := prog.MethodValue(ms.At(i)); f != nil {
+							out[f] = true
+							for _, a := range f.AnonFuncs {
+								out[a] = true
+							}
+						}
+					}
+				}
 			}
 		}
 	}
+	return out
 }
 
-var _ = ssa.InstantiateGenerics
+var timeTimeNamed *types.Named
+
+var _ = sort.Strings
